@@ -916,7 +916,7 @@ def cases(tier, rng):
                     yield dict(base, queries=[rng.choice(names + foreign) for _ in range(rng.choice([1, 2, 4]))])
     yield from _pair_cases(3 if big else 2)
     # 2. random genomes x boundary-heavy entries x every entry point
-    N = 6000 if big else 110
+    N = 3500 if big else 110
     for _ in range(N):
         names, sizes = _rand_genome(rng, allow_zero=True)
         filt = rng.random() < 0.7
